@@ -490,16 +490,16 @@ def replay_input(inp: dict):
 
 # ------------------------------------------------------------------------------------------------ driver
 def plan(tier: str, seed: int):
-    """list of jobs; the exhaustive part does not depend on the seed except for the rotation offset of the options"""
+    """list of jobs; the exhaustive part does not depend on the seed (stable failure reports), the random part does"""
     jobs = []
-    salt = seed * 13
+    salt = 0
     if tier == "quick":
         ex = [(0, 6), (1, 6), (2, 6), (3, 6), (4, 4), (5, 1)]
-        n_random = 220000
+        n_random = 120000
         chunk = 1200
     else:
-        ex = [(0, 40), (1, 40), (2, 40), (3, 20), (4, 12), (5, 6), (6, 2)]
-        n_random = 1500000
+        ex = [(0, 40), (1, 40), (2, 40), (3, 20), (4, 12), (5, 3), (6, 1)]
+        n_random = 800000
         chunk = 4000
     for length, per in ex:
         total = len(ALPHA) ** length
